@@ -49,7 +49,11 @@ where
         if version.as_str() == FSM_READER_VERSION {
             fsm.name = self.reader.read_string();
             fsm.datamodel = self.reader.read_string();
-            fsm.binding = BindingType::from_ordinal(self.reader.read_u8());
+            let binding_ordinal = self.reader.read_u8();
+            if self.reader.has_error() {
+                return Err("Can't read".to_string());
+            }
+            fsm.binding = BindingType::from_ordinal(binding_ordinal);
             fsm.pseudo_root = self.read_state_id();
             fsm.script = self.read_executable_content_id();
 
@@ -84,7 +88,11 @@ where
                 end.as_millis() - start.as_millis()
             );
 
-            Ok(Box::new(fsm))
+            if self.reader.has_error() {
+                Err("Can't read".to_string())
+            } else {
+                Ok(Box::new(fsm))
+            }
         } else if self.reader.has_error() {
             Err("Can't read".to_string())
         } else {
